@@ -95,6 +95,22 @@ def gen_C01(rng, tier):
         d = rand_doc(rng, big=rng.random() < 0.2)
         p = derive_path(rng, d, CHILD, maxextra=2)
         out.append(Q({'doc': d, 'cmds': [('iter', 'doc', p, rng.random() < 0.2, False), ('drain', 0, 60, 1)]}))
+    # every step kind over members holding falsy values (None, 0, False, '', [], {}): present members are selected
+    # whatever they hold (C01-m5: a comma-delimited key step dropping members whose value is null)
+    falsy = [None, 0, False, '', [], {}, 0.0]
+    for _ in range(sized(tier, 300, 4000)):
+        if rng.random() < 0.5:
+            ks = rng.sample(qcase.KEYS, rng.choice([2, 3, 4]))
+            node = {k: copy.deepcopy(rng.choice(falsy + [1, 'a'])) for k in ks}
+            step = rng.choice([('tuple', rng.sample(ks, min(len(ks), rng.choice([1, 2, 3])))), ('tuple', [ks[0], 'zz', ks[-1]]),
+                               ('wc', False), ('gwc', True, False), ('key', ks[0], 'item'), ('rec', False)])
+        else:
+            node = [copy.deepcopy(rng.choice(falsy + [1, 'a'])) for _k in range(rng.choice([1, 2, 3, 4]))]
+            step = rng.choice([('tuple', [0, -1]), ('tuple', [len(node) - 1, 0, 5]), ('lwc', False), ('gwc', False, False),
+                               ('idx', rng.randrange(len(node))), ('idx', -1), ('slice', None, None, None), ('slice', None, None, -1),
+                               ('rec', False)])
+        d, pre = rng.choice([(node, []), ({'k': node}, [('key', 'k', 'item')]), ([node], [('idx', 0)])])
+        out.append(Q({'doc': d, 'cmds': [('iter', 'doc', qcase.fix_path(pre + [step]), rng.random() < 0.3, False), ('drain', 0, 40, 1)]}))
     return out
 
 
@@ -239,6 +255,10 @@ def has_for(rng, doc):
     return ('has', p, op, const, fns, rng.choice(['has', 'tuple', 'bare']))
 
 
+def mcase_loc_to_path(loc):
+    return [('key', n, 'item') if isinstance(n, str) else ('idx', n) for n in loc]
+
+
 def gen_C05(rng, tier):
     out = []
     for _ in range(sized(tier, 1500, 20000)):
@@ -247,6 +267,10 @@ def gen_C05(rng, tier):
         p = derive_path(rng, d, CHILD + ('rec', 'pred', 'parent'), maxextra=1, pred_depth=1)
         tr = rng.random() < 0.15
         dv = rng.choice([1, 'dflt', None, 0, [], {}, '', False, 0.0])
+        if rng.random() < 0.15:
+            strs = [loc for loc, v in qcase.collect_nodes(d) if isinstance(v, str) and v]
+            if strs:
+                p = mcase_loc_to_path(rng.choice(strs)) + [('idx', rng.choice([0, -1]))]
         cmds = []
         src = 'doc'
         if rng.random() < 0.4:
@@ -295,8 +319,12 @@ def gen_C06(rng, tier):
         d = rand_doc(rng)
         cmds = [('snap',)]
         its = 0
+        prev = None
         for _k in range(rng.choice([1, 2, 3, 5])):
             p = derive_path(rng, d, CHILD + ('rec', 'pred', 'parent'), maxextra=1, pred_depth=2)
+            if prev is not None and rng.random() < 0.4:
+                p = prev        # the same path object evaluated again: it must select (and call) the same (C06-m5)
+            prev = p
             tr = rng.random() < 0.3
             r = rng.random()
             if r < 0.3:
@@ -307,6 +335,20 @@ def gen_C06(rng, tier):
             else:
                 cmds.append(('get', 'doc', p, rng.choice([('notset',), ('const', 0), ('call', 9, None)]), tr))
             cmds.append(('snap',))
+        out.append(Q({'doc': d, 'cmds': cmds}))
+    # one filtered path object evaluated several times: the same selection, the same calls in the same order (C06-m5)
+    for _ in range(sized(tier, 250, 3000)):
+        d = rand_doc(rng)
+        p = derive_path(rng, d, CHILD + ('rec',), maxextra=1, pred_depth=0)
+        i = rng.randint(0, len(p))
+        alts = [rng.choice([has_for(rng, d), ('user', 'data'), ('user', 'data_eq', rng.choice(qcase.SCALARS)),
+                            ('user', 'eq_or_raise', rng.choice(qcase.SCALARS), rng.randint(1, 3)), ('user', 'const', rng.choice([0, 1]))])
+                for _k in range(rng.choice([2, 2, 3]))]
+        pr = rng.choice([('any', alts), ('any', alts), ('all', alts), ('not', alts[0])])
+        p = qcase.fix_path(p[:i] + [rng.choice([('gwc', True, False), ('rec', False)])] * (1 if rng.random() < 0.5 else 0) + [('pred', pr)] + p[i:])
+        cmds = [('snap',)]
+        for k in range(rng.choice([2, 3])):
+            cmds += [('iter', 'doc', p, False, rng.random() < 0.3), ('drain', k, 40, 1), ('snap',)]
         out.append(Q({'doc': d, 'cmds': cmds}))
     return out
 
@@ -331,6 +373,21 @@ def gen_C07(rng, tier):
         cmds += [('next', i) for i in sched]
         for i in range(k):
             cmds.append(('drain', i, 40, rng.choice([0, 1, 2, 5])))
+        out.append(Q({'doc': d, 'cmds': cmds}))
+    # several live iterators started from ONE Match (nested searches share their source), advanced in turns (C07-m4)
+    for _ in range(sized(tier, 300, 4000)):
+        d = rand_doc(rng)
+        p0 = derive_path(rng, d, ('key', 'idx', 'wc', 'lwc'), maxextra=0, perturb=0.0)
+        cmds = [('get_match', 'doc', p0, False, False)]
+        k = rng.choice([2, 2, 3])
+        shared = derive_path(rng, d, CHILD + ('rec', 'pred', 'parent'), maxextra=1, pred_depth=1)
+        shared = qcase.fix_path([qcase.gen_step(rng, ['wc', 'lwc', 'gwc', 'rec'], 0)] + shared[:rng.choice([0, 1, 2])]) if rng.random() < 0.6 else shared
+        for i in range(k):
+            cmds.append(('iter', ('match', 0), shared, rng.random() < 0.5, False))
+        sched = [rng.randrange(k) for _ in range(rng.choice([4, 8, 16]))]
+        cmds += [('next', i) for i in sched]
+        for i in range(k):
+            cmds.append(('drain', i, 40, 1))
         out.append(Q({'doc': d, 'cmds': cmds}))
     # thread schedules by enumeration: every single preemption point of one evaluation, another evaluation of the
     # same path object run there
@@ -525,6 +582,9 @@ def gen_C13(rng, tier):
         if rng.random() < 0.3:
             q = qcase.fix_path([('parent',)] * rng.choice([1, 2, 3]) + derive_path(rng, d, CHILD, maxextra=0)[:1])
             cmds += [('iter', ('match', 0), q, False, False), ('drain', 1, 20, 0), ('describe', 0), ('describe', 1)]
+            # the value-returning find, get and get_match climb out of the Match they start from as well (C13-m4)
+            cmds += [('iter', ('match', 0), q, True, False), ('drain', 2, 20, 0),
+                     ('get', ('match', 0), q, ('const', 'dflt'), False), ('get_match', ('match', 0), q, False, False)]
         out.append(Q({'doc': d, 'cmds': cmds}))
     return out
 
@@ -577,14 +637,16 @@ def gen_C17(rng, tier):
         p = derive_path(rng, d, CHILD + ('rec', 'pred', 'parent'), maxextra=1, pred_depth=2)
         r = rng.random()
         if r < 0.6:
-            cmds = [('iter', 'doc', p, False, False), ('drain', 0, 50, 1), ('iter', 'doc', p, False, True), ('drain', 1, 50, 1)]
+            vals = rng.random() < 0.3
+            cmds = [('iter', 'doc', p, vals, False), ('drain', 0, 50, 1), ('iter', 'doc', p, vals, True), ('drain', 1, 50, 1)]
         elif r < 0.8:
             cmds = [('get_match', 'doc', p, False, False), ('get_match', 'doc', p, False, True),
                     ('get', 'doc', p, ('const', 0), False), ('get', 'doc', p, ('const', 0), True)]
         else:
             p0 = derive_path(rng, d, CHILD, maxextra=0, perturb=0)
+            vals = rng.random() < 0.5
             cmds = [('get_match', 'doc', p0, False, False),
-                    ('iter', ('match', 0), p, False, False), ('drain', 0, 30, 1), ('iter', ('match', 0), p, False, True), ('drain', 1, 30, 1)]
+                    ('iter', ('match', 0), p, vals, False), ('drain', 0, 30, 1), ('iter', ('match', 0), p, vals, True), ('drain', 1, 30, 1)]
         out.append(Q({'doc': d, 'cmds': cmds}))
     # the library's own tracer: log_to(lines.append) against the model of trace._log (Builder.v log_line)
     out += [{'family': 'b', 'case': bcase.gen_bcase(rng, log=True)} for _ in range(sized(tier, 300, 4000))]
@@ -619,10 +681,10 @@ def oracle_C17(case, o):
                 evs = [e for e in x[2][1][2] if e[1] == 'trace']
                 hits = [e for e in evs if e[2][3][1] == 'none' and e[2][2] == ('Z', plen) and e[2][1][1] == 'some']
                 oc = x[2][0]
-                want = 1 if oc[1] == 'result' else 0
+                want = 1 if oc[1] in ('result', 'value') else 0
                 if len(hits) != want:
                     errs.append("%d successful last-step events for %d results in one next()" % (len(hits), want))
-                elif want and hits[0][2][1][2][0] != oc[2][0]:
+                elif want and oc[1] == 'result' and hits[0][2][1][2][0] != oc[2][0]:
                     errs.append("the successful last-step event does not carry the yielded match")
     else:
         gm = scan(o, 'get_match')
